@@ -40,32 +40,25 @@ Definition style_attrs_eqb (s : style) (a : attrs) : bool :=
   (s_fg s =? a_fg a) && (s_bg s =? a_bg a) && Bool.eqb (s_italic s) (a_italic a) && Bool.eqb (s_underline s) (a_underline a).
 
 (* ---- ISO 6937 ------------------------------------------------------------------------------------- *)
-Lemma iso6937_single_b : forall b, 0 <= b < 256 ->
-  ((b =? 164) || text_eqb (decode6937 [b]) (decode_iso6937 [b])) = true.
+Lemma iso6937_single_b : forall b, 0 <= b < 256 -> text_eqb (decode6937 [b]) (decode_iso6937 [b]) = true.
 Proof. apply all_bytes. vm_compute. reflexivity. Qed.
 
-Lemma iso6937_single b : 0 <= b < 256 -> b <> 164 -> decode6937 [b] = decode_iso6937 [b].
-Proof.
-  intros Hb Hne. pose proof (iso6937_single_b b Hb) as H.
-  apply orb_true_iff in H as [H|H]; [apply Z.eqb_eq in H; contradiction | apply text_eqb_eq, H].
-Qed.
+Lemma iso6937_single b : 0 <= b < 256 -> decode6937 [b] = decode_iso6937 [b].
+Proof. intros Hb. apply text_eqb_eq, iso6937_single_b, Hb. Qed.
 
 (* every pair of bytes *)
-Definition pair_ok (b1 b2 : Z) : bool := trigger_a4 [b1; b2] || text_eqb (decode6937 [b1; b2]) (decode_iso6937 [b1; b2]).
+Definition pair_ok (b1 b2 : Z) : bool := text_eqb (decode6937 [b1; b2]) (decode_iso6937 [b1; b2]).
 Lemma iso6937_pair_b : forall b1, 0 <= b1 < 256 -> all_upto 256 0 (pair_ok b1) = true.
 Proof. apply all_bytes. vm_compute. reflexivity. Qed.
 
-Lemma iso6937_pair b1 b2 : 0 <= b1 < 256 -> 0 <= b2 < 256 -> trigger_a4 [b1; b2] = false ->
-  decode6937 [b1; b2] = decode_iso6937 [b1; b2].
+Lemma iso6937_pair b1 b2 : 0 <= b1 < 256 -> 0 <= b2 < 256 -> decode6937 [b1; b2] = decode_iso6937 [b1; b2].
 Proof.
-  intros H1 H2 Ht. pose proof (all_bytes _ (iso6937_pair_b b1 H1) b2 H2) as H. unfold pair_ok in H.
-  rewrite Ht in H. apply text_eqb_eq, H.
+  intros H1 H2. pose proof (all_bytes _ (iso6937_pair_b b1 H1) b2 H2) as H. unfold pair_ok in H. apply text_eqb_eq, H.
 Qed.
 
 (* per coded character: what the two decoders do with one chunk *)
 Definition single_char_ok (b : Z) : bool :=
-  (b =? 164) || is_diacritic b ||
-  ((if (32 <=? b) && (b <=? 126) then b else cct0_lookup [b]) =? iso6937_char b).
+  is_diacritic b || ((if (32 <=? b) && (b <=? 126) then b else cct0_lookup [b]) =? iso6937_char b).
 Lemma single_char_b : forall b, 0 <= b < 256 -> single_char_ok b = true.
 Proof. apply all_bytes. vm_compute. reflexivity. Qed.
 
@@ -81,36 +74,32 @@ Proof. reflexivity. Qed.
 
 Definition is_byte (b : Z) : Prop := 0 <= b < 256.
 
-(* byte strings of any length: the decoders agree unless the string contains byte 0xA4 *)
-Lemma iso6937_list_aux : forall n bs, (length bs <= n)%nat -> Forall is_byte bs -> trigger_a4 bs = false ->
-  decode6937 bs = decode_iso6937 bs.
+(* byte strings of any length: the decoders agree (iso6937-a4 was repaired: no byte is excepted) *)
+Lemma iso6937_list_aux : forall n bs, (length bs <= n)%nat -> Forall is_byte bs -> decode6937 bs = decode_iso6937 bs.
 Proof.
-  induction n as [|n IH]; intros bs Hlen Hb Ht.
+  induction n as [|n IH]; intros bs Hlen Hb.
   - destruct bs; [reflexivity | simpl in Hlen; lia].
   - destruct bs as [|b rest]; [reflexivity|].
     inversion Hb as [|? ? Hb1 Hrest]; subst.
-    cbn [trigger_a4 existsb] in Ht. apply orb_false_iff in Ht as [Hb4 Ht].
-    change (existsb (fun b => b =? 164) rest) with (trigger_a4 rest) in Ht.
     cbn [decode6937 decode_iso6937]. rewrite diacritic_range.
-    pose proof (single_char_b b Hb1) as Hs. unfold single_char_ok in Hs. rewrite Hb4, diacritic_range in Hs. cbn [orb] in Hs.
+    pose proof (single_char_b b Hb1) as Hs. unfold single_char_ok in Hs. rewrite diacritic_range in Hs.
     pose proof (diacritic_b b Hb1) as Hd. unfold diacritic_ok in Hd. rewrite diacritic_range in Hd.
     destruct ((32 <=? b) && (b <=? 126)) eqn:Hascii.
     + assert (Hnd : (193 <=? b) && (b <=? 207) = false) by lia. rewrite Hnd in *. cbn [orb] in Hs.
       apply Z.eqb_eq in Hs. unfold iso6937_char in *.
-      f_equal; [exact Hs|]. apply IH; [simpl in Hlen; lia | assumption | assumption].
+      f_equal; [exact Hs|]. apply IH; [simpl in Hlen; lia | assumption].
     + destruct ((193 <=? b) && (b <=? 207)) eqn:Hdia.
       * cbn [negb orb] in Hd. apply andb_true_iff in Hd as [Hd1 Hd2]. apply Z.eqb_eq in Hd1.
         destruct rest as [|l rest'].
         -- rewrite Hd1. reflexivity.
         -- inversion Hrest as [|? ? Hl Hrest']; subst.
            pose proof (all_bytes _ Hd2 l Hl) as Hp. cbn beta in Hp. apply Z.eqb_eq in Hp. rewrite Hp.
-           f_equal. cbn [trigger_a4 existsb] in Ht. apply orb_false_iff in Ht as [_ Ht].
-           apply IH; [simpl in Hlen; lia | assumption | exact Ht].
+           f_equal. apply IH; [simpl in Hlen; lia | assumption].
       * cbn [orb] in Hs. apply Z.eqb_eq in Hs. rewrite Hs. f_equal.
-        apply IH; [simpl in Hlen; lia | assumption | assumption].
+        apply IH; [simpl in Hlen; lia | assumption].
 Qed.
 
-Lemma iso6937_list bs : Forall is_byte bs -> trigger_a4 bs = false -> decode6937 bs = decode_iso6937 bs.
+Lemma iso6937_list bs : Forall is_byte bs -> decode6937 bs = decode_iso6937 bs.
 Proof. apply (iso6937_list_aux (length bs)); lia. Qed.
 
 (* ---- ISO 8859-5/6/7/8: CPython's codec tables are the standard's tables ------------------------------ *)
@@ -136,8 +125,7 @@ Proof.
   repeat match goal with Hx : (_ =? _) = true |- _ => apply Z.eqb_eq in Hx end. auto.
 Qed.
 
-(* the decoder chosen by the CCT field: implementation = standard on any byte string, outside the recorded
-   finding (byte 0xA4 under the Latin table) *)
+(* the decoder chosen by the CCT field: implementation = standard on any byte string *)
 
 Lemma bytes_eqb_eq a b : bytes_eqb a b = true -> a = b.
 Proof.
@@ -150,10 +138,9 @@ Proof.
   destruct cct as [|a [|b [|c r]]]; cbn [cct_is bytes_eqb]; rewrite ?andb_true_r, ?andb_false_r; reflexivity.
 Qed.
 
-Lemma decoder_agrees cct bs : Forall is_byte bs -> trigger_a4_cct cct bs = false ->
-  decoder_of_cct cct bs = decoder_spec cct bs.
+Lemma decoder_agrees cct bs : Forall is_byte bs -> decoder_of_cct cct bs = decoder_spec cct bs.
 Proof.
-  intros Hb Ht. unfold decoder_of_cct, decoder_spec, trigger_a4_cct, latin_cct in *. rewrite !cct_is_eqb.
+  intros Hb. unfold decoder_of_cct, decoder_spec in *. rewrite !cct_is_eqb.
   change 0x31 with 49. change 0x32 with 50. change 0x33 with 51. change 0x34 with 52.
   destruct (bytes_eqb cct [48; 49]) eqn:E1.
   { destruct (bytes_eqb cct [48; 48]) eqn:E0; [apply bytes_eqb_eq in E0, E1; congruence|].
@@ -167,5 +154,5 @@ Proof.
   destruct (bytes_eqb cct [48; 52]) eqn:E4.
   { destruct (bytes_eqb cct [48; 48]) eqn:E0; [apply bytes_eqb_eq in E0, E4; congruence|].
     apply charmap_eq; [|assumption]. intros b H; destruct (iso8859_tables b H) as (H5 & H6 & H7 & H8); exact H8. }
-  cbn in Ht. destruct (bytes_eqb cct [48; 48]); apply iso6937_list; assumption.
+  destruct (bytes_eqb cct [48; 48]); apply iso6937_list; assumption.
 Qed.
